@@ -390,6 +390,8 @@ def b2_real_runs(chk: Check, pid: str):
     kinds = {}
     for i, r in enumerate(runs, start=1):
         d = r["desc"]
+        if d.get("report_exception") and pid in ("C02", "C12"):
+            chk.violation(f"{pid}: real {d.get('method')} run {d.get('id')} found a design and then failed while reporting it: {d['report_exception']}", d)
         if d.get("harness_exception"):
             raise MachineryError(f"corpus run {d.get('id')} failed in the harness: {d['harness_exception']}")
         if d.get("nan_in_eft"):
